@@ -324,5 +324,7 @@ fn native_exd_filenames() {
     println!("NATIVE native_exd_filenames cases={cases}");
 }
 ''')
+# hand-written native bounded units are kept in exd_native.rs.inc and appended verbatim
+out.append(open(os.path.join(os.path.dirname(os.path.abspath(__file__)), "exd_native.rs.inc")).read())
 open(os.path.join(os.path.dirname(os.path.abspath(__file__)), "..", "kani", "exd.rs"), "w").write("".join(out))
 print("ok")
